@@ -10,11 +10,14 @@ Mirrors, at the granularity "one outermost backend command plus the task-local c
 * cashews/backends/transaction.py  `TransactionBackend.set (also with exist=)/exists/incr/get/delete/expire/commit/rollback`,
   `LockTransactionBackend._lock_updates/_unlock_updates` (and its `set/incr/delete/expire`: lock first).
 
-Every way a block can end is modelled: the body runs to its end (commit), raises an `Exception` (`Cmd.raise false`), raises
-a `BaseException` that is not an `Exception` (`Cmd.raise true`), gets `LockedError` out of `_lock_updates`, or the task
+Every way a block can end is modelled: the body runs to its end (commit), raises an exception object of any kind `Exc`
+(`Cmd.raise e`: an `Exception` or a `BaseException` that is not an `Exception`, and - independently - an object whose truth
+value `bool(exc)` is True, as for every built-in exception, or False: a class that defines `__bool__` / `__len__`, e.g. an
+error collection raised while empty), gets `LockedError` out of `_lock_updates`, or the task
 is CANCELLED (`Act.cancel`: `asyncio.CancelledError` raised at the suspension point of the body the task is parked at —
-before a backend command, while waiting for a lock, in a sleep).  `__aexit__` decides with `if not exc_tb`: all of them
-but the first roll back.  Inside a body the program may call `tx.commit()` / `tx.rollback()` on the `Transaction` object
+before a backend command, while waiting for a lock, in a sleep).  `__aexit__` decides with `if not exc_tb` - is an exception
+propagating at all? -, never with the class or the truth value of the exception object: all of them but the first roll back
+(no rule below looks into the `Exc` it carries to the caller).  Inside a body the program may call `tx.commit()` / `tx.rollback()` on the `Transaction` object
 (`Cmd.commit` / `Cmd.rollback`): the buffered writes are flushed (resp. dropped), `_unlock_updates` releases every lock
 (`self._locks = set()`), and the body goes on with an empty buffer and no locks: its later writes acquire their locks again.
 
@@ -37,6 +40,16 @@ inductive Form where
   | ctx | dec
   deriving DecidableEq, Repr
 
+/-- The exception object a body raises, by the two features of it that code deciding between commit and rollback could (wrongly)
+look at: its class - `base = false`: an `Exception` subclass; `base = true`: a `BaseException` subclass that is not an `Exception`
+(like `KeyboardInterrupt` / `SystemExit`) - and its truth value - `falsy = true`: `bool(exc)` is False, because its class defines
+`__bool__` or `__len__` (an "error collection" exception raised while it is empty); every built-in exception is truthy.
+The repaired `__aexit__` looks at neither (`if not exc_tb`). -/
+structure Exc where
+  base : Bool
+  falsy : Bool
+  deriving DecidableEq, Repr
+
 /-- body commands; `nestIn/nestOut` open and close a nested transaction block -/
 inductive Cmd where
   | set (k : Nat) (v : Int)
@@ -46,7 +59,7 @@ inductive Cmd where
   | expire (k : Nat)           -- `cache.expire(k, ttl)`: re-time the key (the TTL itself is not modelled)
   | setx (k : Nat) (v : Int) (e : Bool)   -- `cache.set(k, v, exist=e)`: only if present (`e`) / only if absent; result 1 / 0
   | sleep (d : Nat)            -- `await asyncio.sleep(d/8)`: a suspension that is not a backend command
-  | raise (base : Bool)        -- the body raises: an `Exception` subclass / (`base`) a `BaseException` subclass that is not an `Exception`
+  | raise (e : Exc)            -- the body raises the exception object `e` (any class, truthy or falsy)
   | nestIn (f : Form)
   | nestOut
   | commit                     -- `await tx.commit()` on the `Transaction` that `async with cache.transaction() as tx` returned
@@ -56,9 +69,8 @@ inductive Cmd where
 /-- what the caller of the block gets — all the ways a block can end -/
 inductive Outcome where
   | returned (rs : List (Option Int))   -- the body's results (of its `incr`s and `get`s, in order)
-  | raisedBody                          -- the body's own exception, an `Exception`
+  | raised (e : Exc)                    -- the body's own exception: that very object (its class, its truth value)
   | raisedLocked                        -- `LockedError` out of `_lock_updates`
-  | raisedBase                          -- the body's own exception, a `BaseException` that is not an `Exception`
   | cancelled                           -- `asyncio.CancelledError`: the task was cancelled while suspended inside the body
   deriving DecidableEq, Repr
 
@@ -277,7 +289,7 @@ def lockOrFail (t : Task) (k : Nat) (prog : List Cmd) : Task :=
 def park (now : Nat) (t : Task) (c : Cmd) (rest : List Cmd) : Task :=
   match c with
   | .sleep d => { t with prog := rest, pc := .bodySleep (now + 5 * d) }
-  | .raise b => abort t (if b then .raisedBase else .raisedBody)
+  | .raise e => abort t (.raised e)                     -- `__aexit__(type(e), e, tb)`: `exc_tb` is set → rollback, whatever `e` is
   | .set k _ => if t.ctx then lockOrFail t k (c :: rest) else { t with prog := rest, pc := .direct c }
   | .delete k => if t.ctx then lockOrFail t k (c :: rest) else { t with prog := rest, pc := .direct c }
   | .incr k n =>
